@@ -85,6 +85,7 @@ def touch(case, d):
 
 
 _FUNCTION_BASE = []
+_LEJA_REF = {}
 
 
 def mono_function(ks, centers, scales):
@@ -301,6 +302,42 @@ def run_case(ctx, drv, case, rng, thorough=False, verbose=False):
                 corr("gl-affine-map", {"dim": d, "coords": [float(x) for x in grid.coordinate_array[d]][:6]}, m[:300])
                 break
 
+    # Leja: the weights of the code (first row of the inverse of the Legendre collocation matrix, times the length) vs. the
+    # model's certified exact solution of the linear system on the implementation's OWN reference points
+    if fam == "Leja" and drv is not None and cnt_ok:
+        for d in range(dim):
+            g1 = grid.grids[d]
+            try:     # the reference points depend on (count, borders) only: computed once per harness run (fmin is slow);
+                     # the model's transported points are compared with the grid's own coordinates below in any case
+                key = (int(g1.num_points_with_boundary), int(g1.lowerBorder), int(g1.upperBorder))
+                if key not in _LEJA_REF:
+                    _LEJA_REF[key] = [float(x) for x in g1.get_1D_level_points(g1.level, 0, 1)]
+                ts = _LEJA_REF[key]
+            except Exception:  # noqa: BLE001
+                ts = [(float(x) - start[d]) / (end[d] - start[d]) for x in grid.coordinate_array[d]]
+            if not ts:
+                continue
+            m = drv.ask("leja %s %s %s" % (fstr(S[d]), fstr(E[d]), ",".join(fstr(t) for t in ts)))
+            ctx.count("leja_model_solves")
+            try:
+                body, leg = m.rsplit(" legendre=", 1)
+                mP, mW = body[2:].split(" W ")
+                mP = [float(parse_frac(x)) for x in mP.strip("[]").split(",")]
+                mW = [float(parse_frac(x)) for x in mW.strip("[]").split(",")]
+                cP = [float(x) for x in grid.coordinate_array[d]]
+                cW = [float(x) for x in grid.weights[d]]
+                scale = max(abs(start[d]), abs(end[d]), 1e-300)
+                wscale = max([abs(x) for x in mW] + [1e-300])
+                same = (leg == "ok" and len(mP) == len(cP) and len(mW) == len(cW)
+                        and all(abs(x - y) <= 1e-12 * scale for x, y in zip(cP, mP))
+                        and all(abs(x - y) <= TOL * wscale for x, y in zip(cW, mW)))
+            except Exception:  # noqa: BLE001
+                same = False
+            if not same:
+                corr("leja-weights", {"dim": d, "ref_points": ts[:12], "coords": [float(x) for x in grid.coordinate_array[d]][:12],
+                                      "weights": [float(x) for x in grid.weights[d]][:12]}, m[:600])
+                break
+
     # ---------------- (2c) complete rule: sum of weights, exactness, integrate
     n_moments = 0
     if complete and cnt_ok and announced > 0:
@@ -502,7 +539,7 @@ def malformed_stream(ctx, drv):
     if impl != m:
         ctx.corr_break("C08/malformed-boundary-and-modified", {"line": "g1 trap 0 1 0 1/2 2 1 1"}, {"impl": impl, "model": m})
     for line in ["", "g1", "g1 trap 0 1 0 1/2 2 1", "g1 trap 0 1 0 1/0 2 1 0", "g1 gauss 0 1 0 1 2 1 0", "tens trap 1 0 0,0 1,1 0 1 2,2",
-                 "mom trap 1 0 0 1 0 1 2 1,1", "gl 0 1 1 1,2", "gl 0 1 - -", "gl 0 1/0 1 1", "g1 trap 0 1 0 1 -1 1 0", "g1 simp 0 1 0 1 2 0 1", "g1 trap 0 1 1/2 1/2 2 1 0",
+                 "mom trap 1 0 0 1 0 1 2 1,1", "gl 0 1 1 1,2", "leja 0 1 -", "leja 0 1", "leja 0 1/0 1/2", "gl 0 1 - -", "gl 0 1/0 1 1", "g1 trap 0 1 0 1 -1 1 0", "g1 simp 0 1 0 1 2 0 1", "g1 trap 0 1 1/2 1/2 2 1 0",
                  "tens trap 1 0 - - - - -"]:
         m = drv.ask(line)
         ctx.count("malformed_lines")
